@@ -18,6 +18,7 @@
 #include <string.h>
 #if VH_ASAN
 #include <sanitizer/asan_interface.h>
+#include <sanitizer/lsan_interface.h>
 #endif
 
 #define CFG_TEXT (USE_DEVICE_DEPENDENT_ERROR_INFORMATION)
@@ -626,10 +627,77 @@ static void p1_run(uint64_t idx, vh_rng_t * rng) {
     flush_counts();
 }
 
+/* ---- phase "large": capacities far beyond the enumerated ones, up to the int16_t limit of the queue size --------------------
+ * Own small model (ring of codes / text ids); the ownership ledger is off here, leaks are found by LeakSanitizer's recoverable
+ * check at the end of the case (queue storage wiped first so that stale pointers in dead slots do not hide them), writes outside
+ * the queue array by ASan on the exact-size allocation. */
+static uint64_t pL_count(int thorough) { return thorough ? 64 : 20; }
+static void pL_run(uint64_t idx, vh_rng_t * rng) {
+    static const int caps[] = { 255, 256, 257, 300, 511, 1000, 16383, 16384, 16385, 20000, 32766, 32767, 5000, 129, 128, 4096, 65, 100, 30000, 16390 };
+    int C = caps[idx % 20]; vh_ctx_t * v; int16_t * mcode; unsigned char * mtxt; long head = 0, cnt = 0, i, seq = 0, rot, texts_every; char key[96];
+    scpi_error_t e; char tb[24];
+    led.on = 0; led.fail_at = 0;
+    vh_case_desc("large queue: capacity %d", C);
+    v = vh_ctx_new(cmds, 64, C, 0); v->log_enabled = 0;
+    mcode = (int16_t *) malloc(sizeof(int16_t) * (size_t) C); mtxt = (unsigned char *) malloc((size_t) C);
+    texts_every = C > 5000 ? 7 : 1 + (long) vh_below(rng, 3);
+    /* 1. rotate the ring so that the indices are somewhere in the middle - for the biggest queues so far that wr + size - 1 passes 32767 */
+    rot = C > 16384 ? (32769 - C) + (long) vh_below(rng, 50) : (long) vh_below(rng, (uint32_t) C);
+    if (rot > C) rot = C;
+    for (i = 0; i < rot; i++) SCPI_ErrorPush(v->ctx, (int16_t) (100 + i % 50));
+    for (i = 0; i < rot; i++) { SCPI_ErrorPop(v->ctx, &e); if (e.error_code != (int16_t) (100 + i % 50)) { vh_violation("C10:large-queue-pop-order", "capacity %d: rotation pop %ld gave %d", C, i, e.error_code); break; } }
+#define PUSH_ONE() do { int16_t code = (int16_t) (1 + seq % 30000); int wt = (seq % texts_every) == 0; \
+        if (wt) { int n = snprintf(tb, sizeof tb, "t%ld", seq); SCPI_ErrorPushEx(v->ctx, code, tb, (size_t) n); } else SCPI_ErrorPush(v->ctx, code); \
+        if (cnt < C) { long at = (head + cnt) % C; mcode[at] = code; mtxt[at] = (unsigned char) (wt && USE_DEVICE_DEPENDENT_ERROR_INFORMATION); cnt++; } \
+        else { long at = (head + cnt - 1) % C; mcode[at] = -350; mtxt[at] = 0; } \
+        seq++; } while (0)
+    /* 2. fill completely, 3. overflow a few times */
+    for (i = 0; i < C; i++) PUSH_ONE();
+    if (SCPI_ErrorCount(v->ctx) != C) vh_violation("C10:large-queue-count", "capacity %d: count %ld after filling", C, (long) SCPI_ErrorCount(v->ctx));
+    for (i = 0; i < 3; i++) PUSH_ONE();
+    if (SCPI_ErrorCount(v->ctx) != C) vh_violation("C10:large-queue-count", "capacity %d: count %ld after overflow", C, (long) SCPI_ErrorCount(v->ctx));
+    vh_eval((uint64_t) (2 * rot + C + 3));
+    /* 4. clear, or pop part and clear, or drain by popping - compare every popped entry */
+    {
+        int mode = (int) (idx / 20 + vh_below(rng, 3)) % 3; long npop = mode == 0 ? 0 : (mode == 1 ? cnt / 2 : cnt);
+        for (i = 0; i < npop; i++) {
+            long at = head % C;
+            SCPI_ErrorPop(v->ctx, &e);
+            if (e.error_code != mcode[at]) { snprintf(key, sizeof key, "C10:large-queue-pop-order"); vh_violation(key, "capacity %d: pop %ld of %ld gave code %d, model %d", C, i, npop, e.error_code, mcode[at]); break; }
+#if USE_DEVICE_DEPENDENT_ERROR_INFORMATION
+            if ((e.device_dependent_info != NULL) != (mtxt[at] != 0)) { vh_violation("C10:large-queue-text-presence", "capacity %d: pop %ld code %d text %s, model %s", C, i, e.error_code, e.device_dependent_info ? "present" : "absent", mtxt[at] ? "present" : "absent"); }
+            free(e.device_dependent_info);
+#endif
+            head++; cnt--;
+        }
+        vh_eval((uint64_t) npop);
+        if (SCPI_ErrorCount(v->ctx) != cnt) vh_violation("C10:large-queue-count", "capacity %d: count %ld, model %ld", C, (long) SCPI_ErrorCount(v->ctx), cnt);
+        SCPI_ErrorClear(v->ctx);
+        if (SCPI_ErrorCount(v->ctx) != 0) vh_violation("C10:large-queue-count", "capacity %d: count %ld after clear", C, (long) SCPI_ErrorCount(v->ctx));
+        SCPI_ErrorPop(v->ctx, &e);
+        if (e.error_code != 0) vh_violation("C10:large-queue-pop-order", "capacity %d: pop on the cleared queue gave %d", C, e.error_code);
+        vh_count(mode == 0 ? "large.cleared_while_full" : mode == 1 ? "large.half_popped_then_cleared" : "large.drained_by_pop", 1);
+    }
+    /* 5. nothing may be left allocated: dead slots are wiped so that stale pointers in them do not keep leaked texts reachable */
+    memset(v->queue, 0, sizeof(scpi_error_t) * (size_t) C);
+#if VH_ASAN
+    if (__lsan_do_recoverable_leak_check()) { vh_violation("C10:text-leak-large-queue", "capacity %d, a text every %ld entries: LeakSanitizer reports unreleased blocks after the queue was cleared", C, texts_every); }
+    else vh_count("large.leak_checks_clean", 1);
+#endif
+    vh_count("large.cases", 1);
+    if (C >= 256) vh_count("large.capacity_ge_256", 1);
+    if (C > 16384) vh_count("large.capacity_gt_16384", 1);
+    vh_distinct(vh_hash_u64((uint64_t) C * 1000 + (uint64_t) rot, 77));
+    if (vh_want_sample()) vh_sample("large queue capacity %d: rotate %ld, fill, overflow x3, pop/clear; codes, order, counts and (ASan) leak check", C, rot);
+    free(mcode); free(mtxt);
+    vh_ctx_free(v);
+}
+
 int main(int argc, char ** argv) {
     static const vh_phase_t phases[] = {
         { "enumerated", p0_count, p0_run },
         { "random", p1_count, p1_run },
+        { "large", pL_count, pL_run },
     };
     vh_require("overflow.events");
     vh_require("overflow.marker_popped");
@@ -652,5 +720,6 @@ int main(int argc, char ** argv) {
     vh_require("push.explicit_len_unterminated");
     vh_require("push.automatic_len");
 #endif
-    return vh_main(argc, argv, "C10", phases, 2);
+    vh_require("large.cases"); vh_require("large.capacity_gt_16384");
+    return vh_main(argc, argv, "C10", phases, 3);
 }
